@@ -60,6 +60,12 @@ def firstBad (side : Nat) (ext : Bool) : Bool → Nat → List SFrame → Option
     if frameBad side ext frag f.h then some i
     else firstBad side ext (if isCtl f.h.op then frag else !f.h.fin) (i + 1) fs
 
+/-- With the header check switched off (SkipHeaderCheck) the attached compression extension still has
+    its own rule: RSV1 on a control or continuation frame is refused (RFC 7692 §6). -/
+def firstBadExt (ext : Bool) : Nat → List SFrame → Option Nat
+  | _, [] => none
+  | i, f :: fs => if ext && f.h.rsv / 4 % 2 == 1 && (isCtl f.h.op || f.h.op == 0) then some i else firstBadExt ext (i + 1) fs
+
 /-- Index of the first frame announcing more than `max` payload bytes (`max = 0`: no limit). -/
 def firstBig (max : Nat) : Nat → List SFrame → Option Nat
   | _, [] => none
